@@ -1018,6 +1018,43 @@ impl<'a> Elab<'a> {
             self.unsupported("Weak::upgrade outside `if let Some(x) = ..upgrade()`", sp);
         }
 
+        // `X.m(PATH)` with a function path as argument → `f(X)` (e.g. `.map(ToOwned::to_owned)`)
+        if m.args.len() == 1 {
+            if let Expr::Path(ap) = &m.args[0] {
+                let an = path_to_string(&ap.path);
+                if let Some((_, _, to)) = self.u.argcall.iter().find(|(mm, a, _)| *mm == method && *a == an).cloned() {
+                    let recv = self.fold_expr((*m.receiver).clone());
+                    let f = ident(&to);
+                    return parse_quote!(#f(#recv));
+                }
+            }
+        }
+        // `V.retain(|p| KEEP)` on a Vec → the equivalent explicit loop (std's definition: keeps order, removes the others)
+        if method == "retain" && m.args.len() == 1 {
+            if let Expr::Closure(cl) = &m.args[0] {
+                if cl.inputs.len() == 1 {
+                    let pat = match &cl.inputs[0] {
+                        Pat::Type(pt) => (*pt.pat).clone(),
+                        other => other.clone(),
+                    };
+                    let marker = self.loop_marker();
+                    let idx = format_ident!("__k{}", self.loop_ctr - 1);
+                    let recv = self.fold_expr((*m.receiver).clone());
+                    let saved = self.env.clone();
+                    let body = self.fold_expr((*cl.body).clone());
+                    self.env = saved;
+                    let pat = self.fold_pat(pat);
+                    return parse_quote!({
+                        let mut #idx: usize = 0;
+                        while #idx < #recv.len() {
+                            #marker
+                            let __keep = { let #pat = &#recv[#idx]; #body };
+                            if __keep { #idx += 1; } else { let _ = #recv.remove(#idx); }
+                        }
+                    });
+                }
+            }
+        }
         // `X.m(args)` → `f(X, args)` (by value / by shared reference; trusted helper)
         if let Some((_, to)) = self.u.methodval.iter().find(|(a, _)| *a == method).cloned() {
             let recv = self.fold_expr((*m.receiver).clone());
@@ -1639,6 +1676,14 @@ impl<'a> Elab<'a> {
     }
 
     fn do_path(&mut self, p: ExprPath) -> Expr {
+        // associated constants modelled by functions (`Self::DISCARD_SQL` → `vx_discard_sql()`)
+        if p.qself.is_none() {
+            let full = path_to_string(&p.path);
+            if let Some((_, to)) = self.u.constfn.iter().find(|(a, _)| *a == full) {
+                let f = ident(to);
+                return parse_quote!(#f());
+            }
+        }
         if p.qself.is_none() && p.path.segments.len() == 1 {
             let n = p.path.segments[0].ident.to_string();
             if n == "self" {
